@@ -782,6 +782,7 @@ pub const fn shaped(base: GenCfg, shape: [u8; 4]) -> GenCfg {
     GenCfg { shape, ..base }
 }
 pub const LOG1_OFF: GenCfg = GenCfg { ntrades: 1, ..OFF };
+pub const LOG1_ON: GenCfg = GenCfg { ntrades: 1, ..ON };
 pub const ALL: u32 = E8 | E10 | E11;
 
 vharnesses! {
@@ -800,6 +801,11 @@ vharnesses! {
     fn env_step_b1_any() { step_env::<3, 2, 1>(2, 1, LOG1, ALL, [EV_ANY]) }
     #[cfg_attr(kani, kani::unwind(4))]
     fn env_step_b1_any_off() { step_env::<3, 2, 1>(2, 1, LOG1_OFF, ALL, [EV_ANY]) }
+    // one instruction of ONE kind with the real process_event and trading ON (the quick-tier split of env_step_b1_any)
+    #[cfg_attr(kani, kani::unwind(4))]
+    fn env_step_b1_modify_on() { step_env::<3, 2, 1>(2, 1, LOG1_ON, ALL, [ev(2, usize::MAX)]) }
+    #[cfg_attr(kani, kani::unwind(4))]
+    fn env_step_b1_new_on() { step_env::<3, 2, 1>(2, 1, LOG1_ON, ALL, [ev(0, usize::MAX)]) }
     // C15 lemmas on the compiled rand code
     #[cfg_attr(kani, kani::unwind(4))]
     fn c15_index_draw_lemma() { lemma_index_draw() }
